@@ -17,12 +17,12 @@ ASSUMPTIONS = ["the overflow bit is sticky across steps (cleared only by reset_d
 
 XML = """
 <mujoco>
-  <option timestep="0.005" solver="{solver}" iterations="{iters}" tolerance="{tol}" cone="{cone}"/>
+  <option timestep="0.005" solver="{solver}" iterations="{iters}" tolerance="{tol}" cone="{cone}" jacobian="{jac}"/>
   <worldbody>
     <geom type="plane" size="5 5 .1"/>
-    <body pos="0 0 .15"><freejoint/><geom type="box" size=".1 .1 .1"/>
+    <body pos="0 0 .097"><freejoint/><geom type="box" size=".1 .1 .1"/>
       <body pos=".25 0 0"><joint type="hinge" axis="0 1 0" range="-.3 .3" limited="true"/><geom type="capsule" size=".04 .1"/></body></body>
-    <body pos=".5 0 .12"><freejoint/><geom type="sphere" size=".1"/></body>
+    <body pos=".5 0 .096"><freejoint/><geom type="sphere" size=".1"/></body>
     <body pos="0 .6 .3"><joint type="slide" axis="0 0 1"/><geom type="sphere" size=".08"/></body>
   </worldbody>
 </mujoco>
@@ -46,7 +46,8 @@ def _cases(ctx, ncases, intercept):
       iters = int(rng.choice([1, 2, 3, 5, 8, 30]))
       tol = float(rng.choice([1e-8, 1e-4, 1e-2, 1e-10]))
       cone = "pyramidal" if rng.random() < 0.5 else "elliptic"
-      xml = XML.format(solver=solver, iters=iters, tol=tol, cone=cone)
+      jac = "sparse" if rng.random() < 0.4 else "dense"
+      xml = XML.format(solver=solver, iters=iters, tol=tol, cone=cone, jac=jac)
       mjm, mjd = mjw_util.load(xml)
       nworld = int(rng.integers(2, 5))
       res = {}
@@ -63,12 +64,15 @@ def _cases(ctx, ncases, intercept):
               qpos[w, 2] += 1.0
               qpos[w, 10] += 1.0
             qpos[w, :2] += rng.normal(size=2) * 0.01
+            qpos[w, 7] = rng.uniform(-0.5, 0.5)     # hinge inside / beyond its limit
           base_qpos = qpos
+          base_qvel = (rng.normal(size=(nworld, mjm.nv)) * 0.5).astype(np.float32)
         mjw_util.set_rows(d.qpos, base_qpos)
+        mjw_util.set_rows(d.qvel, base_qvel)
         mjw.forward(m, d)
         niter = d.solver_niter.numpy().copy()
         ovf = d.overflow.numpy().copy() if hasattr(d, "overflow") else None
-        res[gc] = (niter, ovf, d.qacc.numpy().copy(), d.efc.force.numpy().copy() if hasattr(d, "efc") else None)
+        res[gc] = (niter, ovf, d.qacc.numpy().copy(), d.efc.force.numpy().copy() if hasattr(d, "efc") else None, d.qfrc_constraint.numpy().copy())
         evals += 1
         distinct.add((solver, iters, tol, cone, tuple(niter.tolist())))
         if (niter > iters).any() or (niter < 0).any():
@@ -86,6 +90,24 @@ def _cases(ctx, ncases, intercept):
       if not np.allclose(a[2], b[2], rtol=1e-5, atol=1e-6):
         findings.append({"what": "qacc differs between graph_conditional off/on (iterating after convergence changed a world's result)", "site": "solver._solver_iteration",
                          "trigger_id": "transparent", "xml": xml, "max_abs_diff": float(np.abs(a[2] - b[2]).max())})
+      # every solver output, not only qacc: the constraint force in joint space is rebuilt by its own kernels
+      if not np.allclose(a[4], b[4], rtol=1e-4, atol=1e-5 * (1 + np.abs(a[4]).max())):
+        findings.append({"what": f"qfrc_constraint differs between graph_conditional off/on (max |d| {float(np.abs(a[4] - b[4]).max()):.3g}): iterating after convergence changed a world's result",
+                         "site": "solver._update_constraint", "trigger_id": "transparent-qfrc", "xml": xml})
+      # a world in a mixed batch (worlds converge at different iterations) vs the same world alone
+      for w in range(nworld):
+        m1 = mjw.put_model(mjm)
+        d1 = mjw.put_data(mjm, mjd, nworld=1)
+        mjw_util.set_rows(d1.qpos, base_qpos[w:w + 1])
+        mjw_util.set_rows(d1.qvel, base_qvel[w:w + 1])
+        mjw.forward(m1, d1)
+        evals += 1
+        qf1, qa1 = d1.qfrc_constraint.numpy()[0], d1.qacc.numpy()[0]
+        if int(d1.solver_niter.numpy()[0]) == int(b[0][w]) and not (np.allclose(qf1, b[4][w], rtol=1e-4, atol=1e-5 * (1 + np.abs(qf1).max())) and np.allclose(qa1, b[2][w], rtol=1e-4, atol=1e-5 * (1 + np.abs(qa1).max()))):
+          findings.append({"what": f"world {w} of a {nworld}-world batch (niter {b[0].tolist()}) differs from the same world solved alone: max |d qfrc_constraint| "
+                                   f"{float(np.abs(qf1 - b[4][w]).max()):.3g}, |d qacc| {float(np.abs(qa1 - b[2][w]).max()):.3g}", "site": "solver._update_constraint", "trigger_id": "batch-vs-alone",
+                           "xml": xml, "world": w})
+          break
       if a[1] is not None and not np.array_equal(a[1] & 512, b[1] & 512):
         findings.append({"what": "ITERATIONS bit differs between loop kinds", "site": "solver._solve", "trigger_id": "loop-bit", "xml": xml})
       # a world alone must stop at the same iteration as in the mixed batch
@@ -99,7 +121,7 @@ def _cases(ctx, ncases, intercept):
 
 
 def correspondence(ctx):
-  evals, distinct, samples, findings, kc = _cases(ctx, 30 if ctx.thorough else 8, True)
+  evals, distinct, samples, findings, kc = _cases(ctx, 40 if ctx.thorough else 16, True)
   return {"evaluations": evals + kc["tasks"], "distinct_nontrivial": distinct,
           "rule": "random (solver, iteration limit 1..30, tolerance, cone) on a scene whose worlds differ (resting contacts vs free fall) so worlds converge at different iterations; "
                   "each case run with graph_conditional off and on; distinct = distinct (config, per-world niter vector); kernel interception of every _solve_done launch",
